@@ -753,7 +753,9 @@ func TestC17_Instantiate(t *testing.T) {
 
 // TestC17_Levels: the other security levels. Level two (interval 1024) in the
 // quick tier for every mechanism and mode, level one (2^20) in the thorough
-// tier for one mechanism of each kind; every output is compared.
+// tier for one mechanism of each kind, and in both tiers the first 2^16+40
+// generates of level one (the reseed counter outgrows two bytes); every output
+// is compared.
 func TestC17_Levels(t *testing.T) {
 	h.Sweep(t, h.P{Name: "levels"}, func(emit func(seqCase)) {
 		mk := func(m mechSpec, gm bool, level string, interval int) seqCase {
@@ -777,6 +779,14 @@ func TestC17_Levels(t *testing.T) {
 			for _, gm := range []bool{false, true} {
 				emit(mk(m, gm, "two", 1<<10))
 			}
+		}
+		// level one cut short just behind the point where the reseed counter no longer
+		// fits 16 bits (65535/65536 generates since the last reseed; seeded change
+		// C17-8-2 truncated the counter that Hash_DRBG adds to V): one mechanism per
+		// generator kind and mode in the quick tier as well
+		for _, name := range []string{"hash-sha256", "hash-sm3", "hmac-sha256", "hmac-sm3", "ctr-aes128", "ctr-sm4"} {
+			m := mechByName(name)
+			emit(mk(m, m.Prim == "sm3" || m.Prim == "sm4", "one", 1<<16+40))
 		}
 		if h.Thorough() {
 			for _, name := range []string{"hash-sha256", "hmac-sha256", "ctr-aes128", "hash-sm3", "ctr-sm4"} {
